@@ -1,6 +1,6 @@
 SPECIFICATION Spec
 CONSTANTS Kinds = {"rm", "rcm"} MaxR = 2 MaxC = 1 MaxLate = 1 MaxClose = 1 GraceSet = {2} MaxT = 3
   RClasses = {"nil", "err", "canceled"} CClasses = {"nil", "kcanceled", "kraw"}
-  AtomicAddCloser = TRUE GraceRecheck = TRUE Monitor = TRUE Defect = "filterCloserCanceled"
+  AtomicAddCloser = TRUE GraceRecheck = TRUE ReleaseBeforeStart = TRUE Monitor = TRUE Defect = "filterCloserCanceled"
 INVARIANTS NotBad
 CHECK_DEADLOCK FALSE
